@@ -285,7 +285,7 @@ func TestVerifC08Restore(t *testing.T) {
 	r := verifkit.Start(t, "C08", "restore")
 	defer r.Finish("history = 1-3 partitions x 1-4 segments x 1-3 batches x 1-5 records, explicit creation times (incl. skew), non-monotonic record timestamps within and ACROSS batches (a later batch may lie wholly before an earlier one), earliest offset sometimes > 0; T drawn around record timestamps and creation times; partition subsets. Each (history,T,subset) is restored once fault-free (record-level comparison with the expected prefix, target batches decoded incl. CRC) and then once per S3 operation k with that operation failing before its effect, once more per upload with the failure after the effect, and with all rollback deletes failing; evaluations = restore runs; distinct = (history,T,subset,k,mode); non-trivial = run that had >=1 target upload before the fault or a success run that truncated a batch",
 		"fake S3: atomic puts; a failed op either has no effect or (uploads only, mode=after) full effect")
-	n := r.N(60, 900)
+	n := r.N(60, 4000)
 	t0 := int64(1_700_000_000_000)
 	for ci := 0; ci < n; ci++ {
 		rng := r.Rand(ci)
